@@ -59,6 +59,81 @@ def rt_ok(a, b, n, comps, scale=64):
     return None
 
 
+def integrator_binding(res):
+    """the integrators use the transformation of THEIR coordinate system: inside an additional-force callback (called between the
+    two halves of a step) the inertial particle array must be the validated exported inverse applied to the internal coordinates;
+    WHFast in four coordinate systems x force_is_velocity_dependent; MERCURIUS / TRACE: inertial -> heliocentric -> inertial round trip."""
+    import rebound
+    L = clibrebound
+    INV = {"jacobi": "jacobi_to_inertial_posvel", "democraticheliocentric": "democraticheliocentric_to_inertial_posvel",
+           "whds": "whds_to_inertial_posvel", "barycentric": "barycentric_to_inertial_posvel"}
+    for coord, fn in INV.items():
+        for veldep in (0, 1):
+            for na in (-1, 3):
+                sim = rebound.Simulation()
+                sim.add(m=1.0)
+                sim.add(m=3e-2, a=1.0, e=0.1, inc=0.2, f=0.3)
+                sim.add(m=1e-2, a=1.9, e=0.2, inc=0.1, Omega=1.0, f=2.0)
+                sim.add(m=0.0 if na == 3 else 2e-3, a=3.1, e=0.05, inc=0.3, f=4.0)
+                sim.move_to_com()
+                for p in sim.particles:
+                    p.vx += 0.17
+                    p.vz -= 0.09
+                if na != -1:
+                    sim.N_active = na
+                sim.integrator = "whfast"
+                sim.ri_whfast.coordinates = coord
+                sim.force_is_velocity_dependent = veldep
+                sim.dt = 0.05
+                seen = []
+
+                def af(sp, coord=coord, fn=fn, seen=seen):
+                    s_ = sp.contents
+                    n = s_.N
+                    buf = arr(n)
+                    for i in range(n):
+                        buf[i].m = s_.particles[i].m
+                    pj = s_.ri_whfast._p_jh
+                    if fn.startswith("jacobi"):
+                        getattr(L, "reb_particles_transform_" + fn)(buf, pj, buf, n, n if s_.N_active == -1 else s_.N_active)
+                    else:
+                        getattr(L, "reb_particles_transform_" + fn)(buf, pj, n, n if s_.N_active == -1 else s_.N_active)
+                    comps = ("x", "y", "z", "vx", "vy", "vz") if s_.force_is_velocity_dependent else ("x", "y", "z")
+                    d = max(abs(getattr(buf[i], c) - getattr(s_.particles[i], c)) for i in range(n) for c in comps)
+                    seen.append(d)
+                sim.additional_forces = af
+                sim.steps(3)
+                res["calls"] += 3
+                if not seen or max(seen) > 1e-13:
+                    res["violations"].append({"fn": fn, "clause": "WHFast (%s, force_is_velocity_dependent=%d) hands the force routine the inertial state of its own coordinate system" % (coord, veldep),
+                                              "body": None, "component": "max difference", "got": max(seen) if seen else "callback not called", "want": 0.0,
+                                              "row": {"m": [1.0, 3e-2, 1e-2, 2e-3], "na": na, "j": 0}})
+                sim._additional_forces = type(sim._additional_forces)()
+                del sim
+    for name in ("mercurius", "trace"):
+        sim = rebound.Simulation()
+        sim.add(m=1.0)
+        sim.add(m=3e-2, a=1.0, e=0.1, inc=0.2, f=0.3)
+        sim.add(m=1e-2, a=1.9, e=0.2, inc=0.1, Omega=1.0, f=2.0)
+        sim.move_to_com()
+        for p in sim.particles:
+            p.x += 2.0
+            p.vy += 0.3
+        sim.integrator = name
+        sim.dt = 1e-3
+        sim.step()
+        sim.synchronize()
+        before = [(p.x, p.y, p.z, p.vx, p.vy, p.vz) for p in sim.particles]
+        getattr(L, "reb_integrator_%s_inertial_to_dh" % name)(ctypes.byref(sim))
+        getattr(L, "reb_integrator_%s_dh_to_inertial" % name)(ctypes.byref(sim))
+        after = [(p.x, p.y, p.z, p.vx, p.vy, p.vz) for p in sim.particles]
+        d = max(abs(a - b) for p, q in zip(before, after) for a, b in zip(p, q))
+        res["calls"] += 2
+        if d > 1e-13:
+            res["violations"].append({"fn": "%s inertial_to_dh / dh_to_inertial" % name, "clause": "inverse(forward(q)) = q in a displaced, moving frame", "body": None,
+                                      "component": "max difference", "got": d, "want": 0.0, "row": {"m": [1.0, 3e-2, 1e-2], "na": -1, "j": 0}})
+
+
 def main():
     table, out, stride = sys.argv[1], sys.argv[2], int(sys.argv[3])
     res = {"rows": 0, "calls": 0, "violations": [], "samples": []}
@@ -151,6 +226,7 @@ def main():
             res["samples"].append({"row": rid, "jacobi_definition": [str(f) for f in o["jacobi"]], "jacobi_x_from_code": [pj[i].x for i in range(n)]})
         if len(res["violations"]) > 30:
             break
+    integrator_binding(res)
     json.dump(res, open(out, "w"))
 
 
